@@ -544,7 +544,7 @@ def check_key_cases(cases, outs):
     return None
 
 
-NATIVE_POOL = ['uaura', 'uatom', 'uusd', 'aaa', 'aaab', 'bccc', 'ccc', 'uau', 'ibc/27394FB092D2ECCD']
+NATIVE_POOL = ['uaura', 'uatom', 'uusd', 'aaa', 'aaab', 'bccc', 'ccc', 'uau', 'ibc/27394FB092D2ECCD', 'ibc/27394fb092D2eccd']   # bank denoms are case-sensitive: the last two are different coins
 
 
 def gen_registry_scenario(rng):
@@ -588,7 +588,7 @@ def gen_registry_scenario(rng):
         else:
             d = rng.choice(nat)
             sender = 'admin' if rng.random() < 0.85 else 'mallory'
-            st_ = dict(op='add_native_decimals', sender=sender, denom=d, decimals=rng.choice([6, 8, 9, 10, 18]))
+            st_ = dict(op='add_native_decimals', sender=sender, denom=d, decimals=rng.choice([6, 8, 9, 10, 18, 0, 24, 255]))
             if rng.random() < 0.4:
                 st_['funds'] = {d: str(rng.choice([1, 5]))}     # the owner tops the factory up in the same call
             steps.append(st_)
@@ -701,7 +701,7 @@ def gen_auth_scenario(rng):
     former = []
     for _ in range(rng.randrange(4, 9)):
         who = rng.choice(['mallory', 'bob'] + former + [owner])
-        c = rng.randrange(9)
+        c = rng.randrange(10)
         exp = None
         if c == 0:
             new = rng.choice(['carol', 'bob', None])
@@ -731,6 +731,11 @@ def gen_auth_scenario(rng):
         elif c == 7:
             # swap hook from a cw20 that is not an asset of the pair
             st = dict(op='exec_raw', contract='R', sender='mallory', msg={'send': {'contract': '$pair0', 'amount': '1000', 'msg': '$b64:{"swap":{"offer_asset":{"info":{"token":{"contract_addr":"$tok:%s"}},"amount":"1000"},"belief_price":null,"max_spread":null,"to":null}}' % rng.choice(['A', 'R'])}}, _auth=False)
+        elif c == 8:
+            # the router's cw20 hook called directly, claiming the router itself as the hook sender, with one of the router's INTERNAL messages as payload
+            inner = rng.choice(['{"execute_swap_operation":{"operation":{"halo_swap":{"offer_asset_info":{"native_token":{"denom":"uusd"}},"ask_asset_info":{"token":{"contract_addr":"$tok:A"}}}},"to":null}}',
+                                '{"assert_minimum_receive":{"asset_info":{"native_token":{"denom":"uusd"}},"prev_balance":"0","minimum_receive":"0","receiver":"mallory"}}'])
+            st = dict(op='exec_raw', contract='router', sender=who, msg={'receive': {'sender': rng.choice(['$router', '$router', who]), 'amount': '1000', 'msg': '$b64:' + inner}}, _auth=False)
         else:
             st = dict(op='create_pair', sender=who, assets=[{'native': 'uaura'}, {'token': 'A'}], whitelist=['alice'], _auth=(who == owner), _once=True)
         steps.append(st)
@@ -928,6 +933,11 @@ def gen_pages_scenario(rng):
         steps.append(dict(op='create_pair', sender='admin', assets=[a, b], whitelist=['alice'], min=['0', '0'], commission=None))
     for lim in rng.sample([None, 1, 2, 3, 7, 10, 11, 29, 30, 31, 100], 4):
         steps.append(dict(op='walk_pairs', limit=lim))
+    if rng.random() < 0.6:
+        # C17 over a LARGE registry: a re-registration must reach every pair, also beyond one listing page
+        dn = rng.choice(nat)
+        steps.insert(n, dict(op='add_native_decimals', sender='admin', denom=dn, decimals=rng.choice([7, 9, 12])))
+    case['_truth'] = dict(native=dict(decs), token={'A': 6, 'B': 18})
     created = [st_['assets'] for st_ in steps if st_['op'] == 'create_pair']
     for _ in range(3 if created else 0):
         # a continuation query with an explicit limit: the cap holds on every page, not only the first
@@ -983,6 +993,8 @@ def search_special(run_cases, pid, rng, budget):
         gens.append((gen_registry_scenario, check_registry_scenario, False))
     if pid == 'C19':
         gens.append((gen_pages_scenario, check_pages_scenario, False))
+    if pid == 'C17':
+        gens.append((gen_pages_scenario, check_registry_scenario, False))
     if pid == 'C14':
         gens.append((gen_auth_scenario, check_auth_scenario, False))
     if pid in ('C11', 'C13', 'C12', 'C07'):
